@@ -13,6 +13,8 @@
      wire       every NEW frame handed to the transport by both incarnations: [seq, sha, inc]
    T1c  the restored counters equal the live counters at some boundary between the last completed
         and the in-flight operation (or before / after it)
+   T1_after_continuation  after the new incarnation has logged on and sent, a third object over the journal would
+        again restore exactly its live counters (the journal left behind by the kill is not poisoned)
    T2   a MsgSeqNum is never used for two different new messages across the incarnations *)
 EXTENDS Integers, Sequences, FiniteSets, TLC, Json, IOUtils
 Traces == JsonDeserialize(IOEnv.TRACE_FILE)
@@ -24,6 +26,7 @@ Verdict(r) ==
         fails |-> Fc("T1c_restored_counters", Pair(r.restored) \in allowed)
                \o Fc("T1_completed_restored", (r.completed /\ ~r.raised) => Pair(r.restored) = Pair(r.post))
                \o Fc("T2_no_number_reuse", \A i, j \in DOMAIN r.wire : r.wire[i].seq = r.wire[j].seq => r.wire[i].sha = r.wire[j].sha)
+               \o Fc("T1_after_continuation", Pair(r.restored2) = Pair(r.live2))
                \o Fc("K_continuation_error", r.cont_error = "")]
 ASSUME JsonSerialize(IOEnv.OUT_FILE, [i \in DOMAIN Traces |-> Verdict(Traces[i])])
 =============================================================================
